@@ -237,7 +237,8 @@ public:
         if (_limit == MAX_LIMIT)
             return;
 
-        ++_quota;
+        if (_quota < _limit)
+            ++_quota;
         do_write();
     }
 
